@@ -111,7 +111,8 @@ Step(st, e, shares) ==
        [st EXCEPT !.bufs[st.frames[e.x].buf[e.name]][e.i] = e.v]
   ELSE st
 
-MustFail(st, e) == \/ e.op = "setitem" /\ ~FitsRows(st, e.x, e.col)
+TwoD(e) == "twod" \in DOMAIN e /\ e.twod       \* the value is a column object of shape (n, 1): not a one-dimensional column vector
+MustFail(st, e) == \/ e.op = "setitem" /\ (~FitsRows(st, e.x, e.col) \/ TwoD(e))
                    \/ e.op = "ctor" /\ \E l \in CtorLens(st, e) : l # 1 /\ l # CtorN(st, e)
                    \/ e.op = "gmodify" /\ e.flen # 1 /\ ~GroupSizesAll(st, e, e.flen)
 
